@@ -8,7 +8,7 @@ use mimium_lang::{Config, ExecContext, plugin::Plugin, runtime::vm::Program, uti
 use std::hash::Hasher;
 use std::path::PathBuf;
 
-pub const FIELDS: [&str; 11] = ["diagn", "diag", "bc", "bcx", "bcxn", "wasm", "mir", "mirn", "sk", "out", "rust"];
+pub const FIELDS: [&str; 8] = ["diag", "bc", "bcx", "wasm", "mir", "sk", "out", "rust"];
 
 #[derive(Default, Clone)]
 pub struct Art {
@@ -42,14 +42,6 @@ fn errs(es: &[Box<dyn ReportableError>]) -> String {
         .join(" | ")
 }
 
-/// diagnostics as a sorted multiset (finding F19: their ORDER follows HashMap iteration)
-fn errs_sorted(es: &[Box<dyn ReportableError>]) -> String {
-    let joined = errs(es);
-    let mut v: Vec<&str> = joined.split(" | ").collect();
-    v.sort();
-    v.join(" | ")
-}
-
 fn guard<T>(f: impl FnOnce() -> T) -> Result<T, String> {
     std::panic::catch_unwind(std::panic::AssertUnwindSafe(f)).map_err(|e| {
         let m = if let Some(s) = e.downcast_ref::<&str>() {
@@ -67,7 +59,6 @@ fn guard<T>(f: impl FnOnce() -> T) -> Result<T, String> {
 pub fn compile_all(src: &str, path: Option<PathBuf>, n: usize) -> Art {
     let mut a = Art { status: "ok", ..Default::default() };
     let mut diag = String::new();
-    let mut diagn = String::new();
     let mut put = |a: &mut Art, k: &'static str, v: String| a.f.push((k, v));
 
     let mut driver = LocalBufferDriver::new(n);
@@ -89,7 +80,6 @@ pub fn compile_all(src: &str, path: Option<PathBuf>, n: usize) -> Art {
         Ok(Err(es)) => {
             a.status = "err";
             diag = errs(&es);
-            diagn = errs_sorted(&es);
         }
         Err(p) => {
             a.status = "panic";
@@ -115,7 +105,7 @@ pub fn compile_all(src: &str, path: Option<PathBuf>, n: usize) -> Art {
             .unwrap_or_else(|e| e);
             a.prog = Some(p);
         }
-        Ok(Err(es)) => bc_s = format!("ERR:{}", errs_sorted(&es)),
+        Ok(Err(es)) => bc_s = format!("ERR:{}", errs(&es)),
         Err(p) => bc_s = p,
     }
     // wasm
@@ -128,13 +118,13 @@ pub fn compile_all(src: &str, path: Option<PathBuf>, n: usize) -> Art {
             s.push_str(&format!(" sk={:?} io={:?}", w.dsp_state_skeleton, w.io_channels));
             s
         }
-        Ok(Err(es)) => format!("ERR:{}", errs_sorted(&es)),
+        Ok(Err(es)) => format!("ERR:{}", errs(&es)),
         Err(p) => p,
     };
     // rust
     let rust_s = match guard(|| ctx.get_compiler().unwrap().emit_rust(src)) {
         Ok(Ok(r)) => r.source,
-        Ok(Err(es)) => format!("ERR:{}", errs_sorted(&es)),
+        Ok(Err(es)) => format!("ERR:{}", errs(&es)),
         Err(p) => p,
     };
     // run on the VM
@@ -160,13 +150,10 @@ pub fn compile_all(src: &str, path: Option<PathBuf>, n: usize) -> Art {
             .unwrap_or_else(|e| e)
         }
     };
-    put(&mut a, "diagn", diagn);
     put(&mut a, "diag", diag);
     put(&mut a, "bc", bc_s);
-    put(&mut a, "bcxn", canon_scheme_ids(&bcx_s));
     put(&mut a, "bcx", bcx_s);
     put(&mut a, "wasm", wasm_s);
-    put(&mut a, "mirn", canon_scheme_ids(&mask_arg_ids(&mir_s)));
     put(&mut a, "mir", mir_s);
     put(&mut a, "sk", sk_s);
     put(&mut a, "out", out_s);
@@ -191,54 +178,6 @@ impl Art {
     pub fn nontrivial(&self) -> bool {
         self.prog.as_ref().map(|p| !p.global_fn_table.is_empty()).unwrap_or(false)
     }
-}
-
-/// the MIR listing with the raw interner id in `arg <id>:` (mir/print.rs, finding F17) masked
-pub fn mask_arg_ids(s: &str) -> String {
-    let mut out = String::with_capacity(s.len());
-    let mut rest = s;
-    while let Some(i) = rest.find("arg ") {
-        let (a, b) = rest.split_at(i + 4);
-        out.push_str(a);
-        let digits = b.chars().take_while(|c| c.is_ascii_digit()).count();
-        if digits > 0 && b[digits..].starts_with(':') {
-            out.push('#');
-            rest = &b[digits..];
-        } else {
-            rest = b;
-        }
-    }
-    out.push_str(rest);
-    out
-}
-
-/// type-scheme variables `g(<n>)` renumbered by first occurrence (finding F20: the numbers follow interner-id order)
-pub fn canon_scheme_ids(s: &str) -> String {
-    let mut out = String::with_capacity(s.len());
-    let mut map: Vec<String> = vec![];
-    let mut rest = s;
-    while let Some(i) = rest.find("g(") {
-        let (a, b) = rest.split_at(i + 2);
-        out.push_str(a);
-        let digits = b.chars().take_while(|c| c.is_ascii_digit()).count();
-        let standalone = !a[..a.len() - 2].chars().last().map(|c| c.is_ascii_alphanumeric() || c == '_').unwrap_or(false);
-        if standalone && digits > 0 && b[digits..].starts_with(')') {
-            let d = &b[..digits];
-            let k = match map.iter().position(|x| x == d) {
-                Some(k) => k,
-                None => {
-                    map.push(d.to_string());
-                    map.len() - 1
-                }
-            };
-            out.push_str(&format!("#{k}"));
-            rest = &b[digits..];
-        } else {
-            rest = b;
-        }
-    }
-    out.push_str(rest);
-    out
 }
 
 pub fn load(path: &str) -> Option<String> {
